@@ -1101,6 +1101,8 @@ class C03(Prop):
         mk("foreach-invalid-utf8", [[("expr", ("asg", L(A), S(b"a\xffb"))), ("expr", ("asg", L(C), Arr([]))), ("foreach", L(B), L(A), col(L(B))), ("ret", L(C))],
                                     [("expr", ("asg", L(A), S(b"a\xffb"))), ("expr", ("asg", L(C), Arr([]))),
                                      ("for", ("expr", ("asg", L(LI), I(0))), ("bin", "lt", L(LI), ("efun", "strlen", [L(A)])), ("expr", ("inc", "postinc", L(LI))), col(("idx", L(A), L(LI)))), ("ret", L(C))]])
+        mk("array-sub-2p32", [[("ret", ("bin", "sub", Arr([I(0)]), Arr([I(two32)])))],
+                              [("expr", ("asg", L(A), Arr([Fl(0.5)]))), ("expr", ("asg", L(B), Arr([I(1), I(two32)]))), ("ret", ("bin", "sub", L(A), L(B)))]], same=[])
         mk("diveq-int-real-big", [[("expr", ("asg", L(A), I(2 ** 40))), ("expr", ("aop", "div", L(A), Fl(1.0))), ("ret", L(A))]])
         return Bc
 
